@@ -415,7 +415,7 @@ def diff_arrays(a, b, rtol=1e-9, attrs=True, dtype="exact", kind=True):
             return d
     if dtype == "exact" and a.values.dtype != b.values.dtype:
         return "dtype %s != %s" % (a.values.dtype, b.values.dtype)
-    if dtype == "kind" and a.values.dtype.kind != b.values.dtype.kind:
+    if dtype == "kind" and {"U": "O"}.get(a.values.dtype.kind, a.values.dtype.kind) != {"U": "O"}.get(b.values.dtype.kind, b.values.dtype.kind):
         return "dtype kind %s != %s" % (a.values.dtype.kind, b.values.dtype.kind)
     if not _close(a.values, b.values, rtol):
         return "values %r != %r" % (a.values.tolist(), b.values.tolist())
